@@ -545,7 +545,7 @@ func init() {
 		Assume:    []string{"sizes 0..4 (quick) / 0..6 (thorough)", "ToSlot(k<-size) admits slot 0 or 1 (the statement only says clamp)", "Catalog iterators yield live association handles by design (compared by identity)"},
 		Budget:    func(string) time.Duration { return 2 * time.Minute },
 		Units: func(string) []engine.Unit {
-			return []engine.Unit{{Name: "cursor", Run: cursor}, {Name: "snapshots", Run: snapshots}}
+			return []engine.Unit{{Name: "cursor", Run: cursor}, {Name: "snapshots", Run: snapshots}, {Name: "move-histories", Run: histories}}
 		},
 	})
 }
